@@ -193,7 +193,13 @@ impl Drop for SimSocket {
 }
 
 impl SimSocket {
-    pub fn new(name: &'static str, inbox: ChanRef, outbox: ChanRef, chunk: ChunkMode, seed: u64) -> Self {
+    pub fn new(
+        name: &'static str,
+        inbox: ChanRef,
+        outbox: ChanRef,
+        chunk: ChunkMode,
+        seed: u64,
+    ) -> Self {
         Self {
             inbox,
             outbox,
@@ -296,12 +302,11 @@ impl SimPhys for SimSocket {
                 } else {
                     // how many contiguous bytes are deliverable now
                     let hold = c.hold_until_ms;
-                    let avail: usize = c
-                        .q
-                        .iter()
-                        .take_while(|s| s.at_ms.max(hold) <= now)
-                        .map(|s| s.data.len() - s.off)
-                        .sum();
+                    let avail: usize =
+                        c.q.iter()
+                            .take_while(|s| s.at_ms.max(hold) <= now)
+                            .map(|s| s.data.len() - s.off)
+                            .sum();
                     let want = self.pick_len(avail, buf.len());
                     let mut n = 0;
                     while n < want {
@@ -348,7 +353,11 @@ impl SimPhys for SimSocket {
                 0
             };
             let hold = std::mem::take(&mut o.hold_next_ms);
-            (o.latency_ms + jitter + hold, o.fail_next_write.take(), o.closed)
+            (
+                o.latency_ms + jitter + hold,
+                o.fail_next_write.take(),
+                o.closed,
+            )
         };
         if let Some(kind) = fail {
             return Poll::Ready(Err(io::Error::new(kind, "sim: injected write error")));
@@ -362,7 +371,12 @@ impl SimPhys for SimSocket {
         if let Some(core) = &core {
             core.trace_bytes(0x7478, data);
             if core.log_enabled() {
-                core.log(format!("{} tx {} bytes: {}", self.name, data.len(), hex(data)));
+                core.log(format!(
+                    "{} tx {} bytes: {}",
+                    self.name,
+                    data.len(),
+                    hex(data)
+                ));
             }
             core.count("phys_writes", 1);
         }
@@ -382,7 +396,10 @@ impl SimPhys for SimSocket {
             if let Some(core) = &core {
                 core.count("fault.cut_after_write", 1);
                 if core.log_enabled() {
-                    core.log(format!("{}: connection cut right after this write ({:?})", self.name, kind));
+                    core.log(format!(
+                        "{}: connection cut right after this write ({:?})",
+                        self.name, kind
+                    ));
                 }
             }
             chan_close(&self.outbox, kind);
